@@ -38,7 +38,7 @@ SPECS["C09"] = ("""property C09: at most one event per replaceable address; newe
    Theorems about the abstract store ADb.v for ALL histories (induction over operation lists).
    addr_of e = (kind, author, "") for kinds 0, 3, 10000-19999; (kind, author, d) for kinds
    30000-39999 with a d tag; equality of addresses is equality of all bytes and of the length.""",
-  DBIMP + "\nFrom Pocket Require Import DbIdInv DbIndexInv KeyOrder DbAddr.\nFrom Pocket Require DbCovered.", [
+  DBIMP + "\nFrom Pocket Require Import DbIdInv DbIndexInv KeyOrder DbAddr.\nFrom Pocket Require DbCovered DbOlder.", [
   ("C09_at_most_one",
    "forall ops names e1 e2 a, let st := a_run ops (a_init names) in\n    In e1 (live st) -> In e2 (live st) -> addr_of e1 = Some a -> addr_of e2 = Some a -> e1 = e2",
    "at_most_one_per_address", "every reachable state, every address"),
@@ -57,6 +57,9 @@ SPECS["C09"] = ("""property C09: at most one event per replaceable address; newe
   ("C09_concrete_stored_event_is_sole_holder",
    "forall ops names e s' off x, ops_wfe ops -> wf_ev e -> let s := c_run ops (db_init names) in\n    store_event s e = (s', Ok off) -> is_ephemeral (e_kind e) = false -> e_kind e <> 5 ->\n    get_event_by_id s' (e_id x) = Ok (Some x) -> same_address x e -> x = e",
    "DbCovered.stored_event_is_sole_holder", "NEWER WINS on the concrete store: after a successful store the stored event is the only retrievable event of its address - whatever held the address before has been replaced"),
+  ("C09_concrete_older_event_refused",
+   "forall ops names e h, ops_wfe ops -> wf_ev e -> let s := c_run ops (db_init names) in\n    get_event_by_id s (e_id h) = Ok (Some h) -> same_address h e -> e_created e < e_created h ->\n    exists x, store_event s e = (s, Err x) /\\ (x = EDup \\/ x = EDeleted \\/ x = EReplaced)",
+   "DbOlder.older_event_refused", "OLDER REFUSED on the concrete store, every reachable state: an event strictly older than the retrievable holder of its address (replaceable kinds; parameterized kinds with the same d) is refused - as duplicate, deleted or replaced - and the store is unchanged"),
   ("C09_at_most_one_concrete",
    "forall ops names e1 e2, ops_wfe ops -> let s := c_run ops (db_init names) in\n    get_event_by_id s (e_id e1) = Ok (Some e1) -> get_event_by_id s (e_id e2) = Ok (Some e2) ->\n    same_address e1 e2 -> e1 = e2",
    "at_most_one_per_address_concrete", "the CONCRETE store (index tables, padded/truncated keys, range scans in memcmp order), every reachable state: same author + same replaceable kind, or same author + same parameterized kind + same d (every byte and the length) => the same event"),
@@ -422,11 +425,13 @@ SPECS["C01"] = ("""property C01: event JSON parsing is faithful to an independen
    event the parser consumes the whole text and produces exactly the encoding of the seven fields
    (JsonRoundTrip.v); and the seven members may come in ANY ORDER (EventAnyOrder.v: all 5040 orders,
    including content before tags, where the parser remembers the content's start and decodes it once the
-   tags are placed), whatever follows the closing brace.  For the other texts of the grammar (whitespace,
-   escape spellings, unknown members) "parse t = enc_event (denote t)" is not proved in Coq; it is decided
-   per run by the differential check against python's json module (member orders, whitespace, escape
+   tags are placed), whatever follows the closing brace, WITH ANY NUMBER OF UNKNOWN MEMBERS in between
+   (JsonSkip.v: the value skipper skips every JSON value - strings, numbers, literals, arrays and objects
+   nested up to the parser's limit of 128 - and leaves the parse state alone).  For the remaining texts
+   of the grammar (whitespace, alternative escape spellings of known strings) "parse t = enc_event (denote t)"
+   is not proved in Coq; it is decided per run by the differential check against python's json module (member orders, whitespace, escape
    spellings, unknown members, boundaries) and against the parser model (exact).""",
-  CODIMP + "\nFrom Pocket Require Import EscapeRoundTrip JsonRoundTrip EventAnyOrder.", [
+  CODIMP + "\nFrom Pocket Require Import EscapeRoundTrip JsonRoundTrip JsonSkip EventAnyOrder.", [
   ("C01_created_at_value_partial",
    "forall l, read_u64 l = let '(ds, rest) := span_digits l in\n    match ds with [] => Err EJson | _ => if num_of ds <=? 18446744073709551615 then Ok (num_of ds, rest) else Err EJson end",
    "read_u64_spec", "digit run of any length: its value, or an error when >= 2^64"),
@@ -439,12 +444,48 @@ SPECS["C01"] = ("""property C01: event JSON parsing is faithful to an independen
   ("C01_any_member_order",
    "forall e tj cj ms tail out, wf_event_json e -> tags_as_json (e_tags e) = Ok tj -> json_escape (e_content e) = Ok cj ->\n    NoDup ms -> (forall k, In k ms) -> event_size e <= len out ->\n    event_from_json (event_text e tj cj ms tail) out\n    = Ok (len (event_text e tj cj ms tail) - len tail, enc_event e, enc_event e ++ drop (event_size e) out)",
    "event_any_order", "EVERY well-formed event, EVERY order of its seven members (a duplicate-free list containing all seven keys), the library's spelling of each member, anything after the closing brace: the parse consumes exactly the object and yields the canonical encoding of the seven field values, the rest of the caller's buffer untouched"),
+  ("C01_any_order_with_unknown_members",
+   "forall e tj cj ms tail out, wf_event_json e -> tags_as_json (e_tags e) = Ok tj -> json_escape (e_content e) = Ok cj ->\n    Forall emem_ok ms -> NoDup (known ms) -> (forall k, In k (known ms)) -> event_size e <= len out ->\n    event_from_json (event_text_u e tj cj ms tail) out\n    = Ok (len (event_text_u e tj cj ms tail) - len tail, enc_event e, enc_event e ++ drop (event_size e) out)",
+   "event_any_order_unknown", "the seven members in any order with ANY NUMBER of unknown members before, between and after them (keys the parser does not know; values any JSON value nested up to depth 128; the same unknown key may repeat): the parse is still exactly the canonical encoding of the seven field values"),
+  ("C01_unknown_member_is_skipped",
+   "forall key v K, skippable_str key -> jwf v -> jdepth v <= 128 -> vfollow K ->\n    burn_member (key ++ 34 :: 58 :: jtext v ++ K) = Ok K",
+   "burn_member_skips", "the skipper: key, colon and a value tree of any shape (strings, numbers incl. exponents with a plus sign, true/false/null, arrays, objects) are consumed exactly, whatever follows; the fuel the parser supplies (twice the text length) always suffices"),
+  ("C01_plain_keys_are_unknown",
+   "forall key, Forall (fun c => c <> 34 /\\ c <> 92) key -> ~ In key known_names -> unknown_key key",
+   "plain_unknown_key", "every key without quote or backslash other than the seven names (incl. their prefixes and extensions: i, idx, ids, kin, created) is treated as unknown"),
   ("C01_as_json_is_one_of_these_texts",
    "forall e tj cj, tags_as_json (e_tags e) = Ok tj -> json_escape (e_content e) = Ok cj ->\n    event_as_json e = Ok (event_text e tj cj [KId; KPk; KKind; KCreated; KTags; KContent; KSig] [])",
    "as_json_is_event_text", ""),
   ("C01_int_no_wrap_u64", "forall l v r, read_u64 l = Ok (v, r) -> v < 18446744073709551616", "read_u64_fits", ""),
   ("C01_int_no_wrap_kind", "forall l v r, read_kind l = Ok (v, r) -> v < 65536", "read_kind_fits", ""),
-  ], """(* non-vacuity of the any-order theorem: content first, then sig, tags, id, kind, pubkey, created_at; trailing bytes *)
+  ], """(* non-vacuity with unknown members: a number with a plus-signed exponent, a nested object under a key that extends a known name, a repeated unknown key *)
+Example C01_unknown_example :
+  let e := mkE (repeat 1 32) (repeat 2 32) (repeat 3 64) 1 1700000000 [[[101]; [91; 34; 93]]; []; [[]]] [104; 10; 34; 92; 195; 169] in
+  let u1 := EU [120] (JNum [49; 101; 43; 51]) in
+  let u2 := EU [105; 100; 115] (JObj [([97], JArr [JNull; JStr [113; 92; 34]; JArr []]); ([], JTrue)]) in
+  let ms := [u1; EK KContent; EK KSig; u2; EK KTags; EK KId; EK KKind; EK KPk; u1; EK KCreated] in
+  wf_event_json e /\\ Forall emem_ok ms /\\ NoDup (known ms) /\\ (forall k, In k (known ms)) /\\
+  exists tj cj, tags_as_json (e_tags e) = Ok tj /\\ json_escape (e_content e) = Ok cj /\\
+    event_from_json (event_text_u e tj cj ms [9; 9]) (repeat 170 (N.to_nat (event_size e) + 3))
+    = Ok (len (event_text_u e tj cj ms [9; 9]) - 2, enc_event e, enc_event e ++ [170; 170; 170]).
+Proof.
+  cbv zeta. split; [|split; [|split; [|split]]].
+  - unfold wf_event_json. cbn [e_id e_pk e_sig e_kind e_created e_tags e_content].
+    assert (R : forall b n, b < 256 -> wf_bytes (repeat b n)) by (intros b n Hb; apply Forall_forall; intros x Hx; apply repeat_spec in Hx; subst x; exact Hb).
+    repeat apply conj; try (apply R; lia); try (vm_compute; reflexivity); try lia.
+    + repeat constructor.
+      * exists [101]. split; [repeat constructor; unfold scalar; lia|reflexivity].
+      * exists [91; 34; 93]. split; [repeat constructor; unfold scalar; lia|reflexivity].
+      * exists []. split; [constructor|reflexivity].
+    + exists [104; 10; 34; 92; 233]. split; [repeat constructor; unfold scalar; lia|vm_compute; reflexivity].
+  - assert (P : forall key, Forall (fun c => c <> 34 /\\ c <> 92) key -> skippable_str key) by exact plain_skippable.
+    repeat constructor; try (apply P; repeat constructor; lia); try (intros rest; repeat split; reflexivity); try (cbn; lia);
+      try (intros K; reflexivity).
+  - cbn [known]. repeat constructor; cbn; intuition discriminate.
+  - intros k. destruct k; cbn; auto 8.
+  - eexists _, _. split; [vm_compute; reflexivity|split; [vm_compute; reflexivity|vm_compute; reflexivity]].
+Qed.
+(* non-vacuity of the any-order theorem: content first, then sig, tags, id, kind, pubkey, created_at; trailing bytes *)
 Example C01_order_example :
   let e := mkE (repeat 1 32) (repeat 2 32) (repeat 3 64) 1 1700000000 [[[101]; [91; 34; 93]]; []; [[]]] [104; 10; 34; 92; 195; 169] in
   let ms := [KContent; KSig; KTags; KId; KKind; KPk; KCreated] in
@@ -561,7 +602,7 @@ SPECS["C02"] = ("""property C02: event binary <-> JSON round trip is lossless an
    enc_event e and every accessor returns the field).  Losslessness through json_escape/json_unescape
    and canonicity across texts are decided per run by the differential check (5 texts per event,
    3 buffer fills, from_parts, python json on as_json's output, byte equality).""",
-  CODIMP + "\nFrom Pocket Require Import Ctor CtorProofs Access EscapeRoundTrip JsonRoundTrip.", [
+  CODIMP + "\nFrom Pocket Require Import Ctor CtorProofs Access EscapeRoundTrip JsonRoundTrip EventAnyOrder.", [
   ("C02_hex_roundtrip_partial", "forall bs, wf_bytes bs -> read_hex (write_hex bs) (len bs) = Ok bs", "read_write_hex", ""),
   ("C02_binary_form_is_function_of_fields_partial",
    "forall e out, wf_aevent e -> fits_event e -> event_size e <= len out ->\n    exists b, event_from_parts e out = Ok b /\\ take (event_size e) b = enc_event e /\\ drop (event_size e) b = drop (event_size e) out /\\\n              len b = len out /\\ ev_delineate b = Ok (enc_event e) /\\ event_accessors_ok e (enc_event e)",
@@ -569,6 +610,9 @@ SPECS["C02"] = ("""property C02: event binary <-> JSON round trip is lossless an
   ("C02_event_json_roundtrip",
    "forall e txt out, wf_event_json e -> event_size e <= len out -> event_as_json e = Ok txt ->\n    event_from_json txt out = Ok (len txt, enc_event e, enc_event e ++ drop (event_size e) out)",
    "event_json_roundtrip", "EVERY well-formed event (valid UTF-8 strings, any tag shapes incl. empty tags and empty strings, fields within their widths), every caller buffer of sufficient size with ANY prior contents: parsing the text Event::as_json writes consumes it entirely and writes exactly the canonical binary encoding of the same seven field values, leaving the rest of the buffer untouched"),
+  ("C02_binary_form_independent_of_member_order",
+   "forall e tj cj ms ms' tail tail' out, wf_event_json e -> tags_as_json (e_tags e) = Ok tj -> json_escape (e_content e) = Ok cj ->\n    NoDup ms -> (forall k, In k ms) -> NoDup ms' -> (forall k, In k ms') -> event_size e <= len out ->\n    exists c c', event_from_json (event_text e tj cj ms tail) out = Ok (c, enc_event e, enc_event e ++ drop (event_size e) out) /\\\n                 event_from_json (event_text e tj cj ms' tail') out = Ok (c', enc_event e, enc_event e ++ drop (event_size e) out)",
+   "event_order_independent", "CANONICITY across member orders: two texts of the same event with the seven members in different orders (any two of the 5040), whatever follows the closing brace, parse to byte-identical binary events"),
   ("C02_tags_json_roundtrip",
    "forall ts tj tail F, JsonRoundTrip.valid_tags ts -> fits_tags ts -> tags_size ts <= len F ->\n    tags_as_json ts = Ok tj -> tags_from_json (tj ++ tail) F = Ok (len tj, enc_tags ts)",
    "tags_json_roundtrip", "Tags::from_json after Tags::as_json, whatever follows the text"),
